@@ -662,6 +662,11 @@ impl Statement {
     fn r#delete(parse: &mut BasicParser) -> Result<Statement> {
         let column = parse.col.clone();
         let (from, to) = parse.expect_line_number_range()?;
+        if let (Expression::Single(f, _), Expression::Single(t, _)) = (&from, &to) {
+            if f.start == f.end && t.start == t.end {
+                return Err(error!(IllegalFunctionCall, ..&column; "MISSING LINE NUMBER"));
+            }
+        }
         Ok(Statement::Delete(column, from, to))
     }
 
